@@ -9,6 +9,11 @@ CLAIMED = {
    note="Trusted: Coq kernel + vm_compute; translator (gcc parses the headers, cross-checked by a textual parse); harness/dump_tables.c; GF2Poly.v as the definition of the field. No axioms (Print Assumptions: closed under the global context).",
    technique="Coq proof by exhaustive vm_compute sweep over translator-regenerated tables + model/implementation table correspondence",
    ref="3/C14"),
+ "C13": dict(
+   text="Machine-checked proof (Coq) that the Gallina models of the seven symbol kernels (XOR one->one, many->one with the 8/4/2/1 operand grouping, one->many; GF(2^8) multiply-accumulate of both codecs, GF(2^4) bytewise and packed two-per-byte) change exactly bytes 0..size-1 of the destination(s) into the bytewise definition, read no operand byte at or beyond size, for every size and operand count (no bound), with the table rows proved to be field multiplication in C14. The models keep the C's loop structure and offset arithmetic; they are tied to the compiled C by a differential run (extracted model vs C under ASan, exact-size heap blocks, all 8 alignments, every size 0..70+, operand counts 0..20, every field constant).",
+   note="Trusted: Coq kernel + vm_compute; Kernels.v's modelling of a word access as an access to the bytes it covers (LP64 little-endian non-SSE path); alignment exists only on the C side of the correspondence; extraction + drivers. No axioms.",
+   technique="Coq proof over hand-written loop-faithful models + extracted-model-vs-C correspondence under ASan",
+   ref="3/C13"),
  "C19": dict(
    text="Machine-checked proof (Coq + Flocq) about the Gallina function that tools/c2gallina.py generates from of_rand.c on every run: for every state in 1..2^31-2 the next state is 16807*s mod (2^31-1) (Carta's split = modular multiplication, never 0), seeding accepts exactly 1..2^31-2, the 10,000th state from 1 is 1043618065, the returned value is RFC 5170's binary64 expression, lies in 0..maxv-1 for every maxv <= 2^24 (also for products above 2^53) and equals the exact floor below 2^53. All 2^31-2 states and all maxv at once; the compiled C is tied in by a differential run against the extracted model plus an exact-integer oracle.",
    note="Trusted: Coq kernel + vm_compute; c2gallina translator and CSem.v (meaning of C's UINT64 and double operators); Flocq 4.1.0; stdlib axioms of the reals (sig_forall_dec, sig_not_dec, functional_extensionality_dep, classic) as printed by Print Assumptions; extraction (ExtrOcamlBasic) and the C/OCaml drivers for the correspondence.",
